@@ -36,7 +36,7 @@ ASSUMPTIONS = [
 REQUIRED = {"expand.count_and_order": {"quick": 1500, "thorough": 100000}, "expand.row_scenario": {"quick": 3000, "thorough": 200000},
             "expand.template_unchanged": {"quick": 1500, "thorough": 100000}, "expand.rows_independent": {"quick": 800, "thorough": 50000},
             "modify.rebuilt": {"quick": 800, "thorough": 50000}, "builder.count": {"quick": 1500, "thorough": 100000}}
-REQUIRED_SEEN = {"outline_place": ["in_rule", "in_feature"], "examples_shape": ["section_without_table_before_rows"], "tag_placeholder_column": ["name_with_punctuation"], "schema": 7, "modification": ["add_row", "add_row_object", "add_column", "remove_column"]}
+REQUIRED_SEEN = {"background_steps_shape": ["mixed", "all_with_placeholder", "none_with_placeholder"], "outline_place": ["in_rule", "in_feature"], "examples_shape": ["section_without_table_before_rows"], "tag_placeholder_column": ["name_with_punctuation"], "schema": 7, "modification": ["add_row", "add_row_object", "add_column", "remove_column"]}
 NSHARDS = {"quick": 16, "thorough": 16}
 
 
@@ -99,17 +99,28 @@ def gen_outline(rng):
             # an Examples section without any table (legal; it has no rows but it still is the ei-th section)
             order, rows = None, []
         examples.append({"tags": [rng.choice(["e1", "e2", "slow", "k=v"]) for _ in range(rng.randint(0, 2))],
-                         "name": rng.choice(["", "E%d" % ei, "E <%s>" % rng.choice(cols), "Block %d" % ei]),
+                         "name": rng.choice(["", "E%d" % ei, "E <%s>" % rng.choice(cols), "Block %d" % ei,
+                                             # a section title is everything behind "Examples:" -- colons included
+                                             "Weekdays 08:00 - 18:30", "Ratio 1:2: weekend %d" % ei, "Trailing colon:"]),
                          "header": order, "rows": rows})
     outline = {"kind": "outline", "tags": tags, "name": "O " + text(2), "desc": ["%% description <%s>" % cols[0]] if rng.random() < 0.3 else [],
                "steps": steps, "examples": examples}
     before = [{"kind": "scenario", "tags": [], "name": "before", "desc": [], "steps": [{"kw": "Given", "text": "a step"}]}] if rng.random() < 0.5 else []
+    background = None
+    if rng.random() < 0.35:
+        # a Background in front of the outline whose steps use the examples columns -- all of them, some of them, or none
+        bsteps = []
+        for j in range(rng.randint(1, 3)):
+            with_ph = rng.random() < 0.5
+            bsteps.append({"kw": "Given" if j == 0 else rng.choice(["And", "Given", "*"]),
+                           "text": "bg%d %s" % (j, ("uses <%s> here" % rng.choice(cols)) if with_ph else "plain text")})
+        background = {"kind": "background", "name": "", "desc": [], "steps": bsteps}
     if rng.random() < 0.3:
         # the outline inside a Rule (the feature-level flat scenario list still holds one scenario per row)
         rule = {"kind": "rule", "tags": [], "name": "R", "desc": [], "background": None, "items": [outline]}
-        feature = {"kind": "feature", "tags": ["f"], "name": "F", "desc": [], "background": None, "items": before + [rule]}
+        feature = {"kind": "feature", "tags": ["f"], "name": "F", "desc": [], "background": background, "items": before + [rule]}
     else:
-        feature = {"kind": "feature", "tags": ["f"], "name": "F", "desc": [], "background": None, "items": before + [outline]}
+        feature = {"kind": "feature", "tags": ["f"], "name": "F", "desc": [], "background": background, "items": before + [outline]}
     return feature, len(before)
 
 
@@ -246,6 +257,21 @@ def one_case(mon, rng, sample=False):
         if g[3] != w[3]:
             diffs.append(("line", g[3], w[3]))
         mon.check("expand.row_scenario", not diffs, lambda: W(row=w[0], differences=diffs[:3]))
+    bg_abs = feature.get("background")
+    if bg_abs is not None:
+        shapes = set("<" in st["text"] for st in bg_abs["steps"])
+        mon.seen("background_steps_shape", "mixed" if len(shapes) == 2 else ("all_with_placeholder" if True in shapes else "none_with_placeholder"))
+        for si, srow in enumerate(scen):
+            # (row order == order of 'want'; the cells of that row)
+            ei_ri = [(ei, ri) for ei, ex in enumerate(outline_abs["examples"]) for ri in range(len(ex["rows"]))]
+            if si >= len(ei_ri):
+                break
+            ei, ri = ei_ri[si]
+            ex = outline_abs["examples"][ei]
+            want_bg = [subst(st["text"], ex["header"], ex["rows"][ri]) for st in bg_abs["steps"]]
+            got_bg = [x.name for x in (srow.background_steps or [])]
+            mon.check("expand.background_steps_of_the_row", got_bg == want_bg,
+                      lambda: W(row=srow.name, got=got_bg, want=want_bg))
     # the flat lists of the feature: the scenarios in front of the outline, then one scenario per row (the outline itself
     # only on request)
     flat = [x.name for x in f.walk_scenarios()]
